@@ -620,7 +620,7 @@ def run(ctx, scratch):
                         optimizer=rng.choice(['Adam', 'GD']), early_stopping=early, patience=rng.randint(1, 3),
                         validation=(0.3 if early and len(lab_nodes) >= 4 and rng.random() < 0.7 else 0),
                         n_epochs=rng.randint(1, 5),
-                        random_state=rng.randrange(1000), labels=labels)
+                        random_state=rng.choice([0, 0, rng.randrange(1000)]), labels=labels)
             r = impl.call('c19', 'classifier', args, timeout=60)
             ctx.traces += 1
             chan = 'single' if o == 1 else 'multi'
